@@ -46,6 +46,7 @@ type Opts struct {
 	NoRandom         bool     // no random routers (outputs comparable across executions without a pinned random source)
 	NoGeneratedIDs   bool     // no templates that print engine-generated UUIDs (ticket UUIDs): for checks that cannot pin the UUID source
 	LocationHeavy    bool     // half of the router cases are location tests (shared location hierarchy)
+	BrokenFlow       bool     // the assets may hold a flow whose definition does not load (target of enter_flow actions only)
 	TranslateMissing bool     // translations of quick_replies/attachments that the base language lacks, referencing globals/fields
 }
 
@@ -110,6 +111,7 @@ var DefaultGroupQueries = []string{
 	`created_on > "2015-06-01"`, `created_on < "2015-06-01"`, `tickets > 0`, `tickets = 0`, `dob < "2000-01-01"`, `dob != ""`,
 	`joined = "2018-01-01"`, `nick = "bobby" OR gender = "female"`, `(age > 10 AND age < 20) OR name ~ "ann"`, `state = "Kigali City"`,
 	`nick != "x"`, `language != "eng"`, `tel != "+250788123456"`, `tel = "+250788000111"`, `urn != "bob"`, `twitter = "bob"`,
+	`district = "Gasabo"`, `district = ""`, `ward = "Gisozi"`, `state != ""`, `state = "Eastern Province"`, `district != "Centre"`,
 }
 
 var channels = []M{
@@ -194,6 +196,36 @@ func (g *gen) template() string {
 		return "Hi there"
 	}
 	return tpl
+}
+
+// mixedRecipients fills an action that addresses other contacts with lists of every kind and length: 0-7 contacts, 0-4
+// URNs, groups, and legacy variables that evaluate to a contact UUID, a URN, a group name or an error at run time.
+func (g *gen) mixedRecipients(a M) {
+	nc := rapid.IntRange(0, 7).Draw(g.t, "ncontacts")
+	contacts := []M{}
+	for i := 0; i < nc; i++ {
+		contacts = append(contacts, M{"uuid": UUID("contact", 20+i), "name": fmt.Sprintf("Other %d", i)})
+	}
+	if nc > 0 {
+		a["contacts"] = contacts
+	}
+	nu := rapid.IntRange(0, 4).Draw(g.t, "nurnsto")
+	urns := []string{}
+	for i := 0; i < nu; i++ {
+		urns = append(urns, fmt.Sprintf("tel:+25078855500%d", i))
+	}
+	if nu > 0 {
+		a["urns"] = urns
+	}
+	if rapid.Bool().Draw(g.t, "togroups") {
+		a["groups"] = g.groupRefs(false)
+	}
+	nv := rapid.IntRange(1, 3).Draw(g.t, "nlegacyvars")
+	vars := []string{}
+	for i := 0; i < nv; i++ {
+		vars = append(vars, rapid.SampledFrom([]string{"@contact.uuid", "@contact.urn", "@(1 / 0)", "Testers", "tel:+250788000999", "@fields.nick", "@contact.name"}).Draw(g.t, "legacyvar"))
+	}
+	a["legacy_vars"] = vars
 }
 
 // ---------------------------------------------------------------------------------------------------------------
@@ -329,13 +361,13 @@ func (g *gen) action(flowType string, flowUUIDs []string, flowNames []string) M 
 		a["field"] = ref(f, "key", "name")
 		switch f["type"] {
 		case "number":
-			a["value"] = rapid.SampledFrom([]string{"23", "@input.text", "", "17.5", "@(fields.age + 1)", "abc", "0"}).Draw(g.t, "numval")
+			a["value"] = rapid.SampledFrom([]string{"23", "@input.text", "", "17.5", "@(fields.age + 1)", "abc", "0", "10.50", "10.50", "007", "1e3"}).Draw(g.t, "numval")
 		case "datetime":
-			a["value"] = rapid.SampledFrom([]string{"2020-01-01", "@(now())", "", "2000-01-01T00:00:00Z", "yesterday", "@input.text"}).Draw(g.t, "dateval")
+			a["value"] = rapid.SampledFrom([]string{"2020-01-01", "@(now())", "", "2000-01-01T00:00:00Z", "yesterday", "@input.text", "2020-05-10 12:30", "2020-05-10 12:30", "10-05-2020 12:30:45", "2020-05-10T12:30:00+02:00"}).Draw(g.t, "dateval")
 		case "state":
-			a["value"] = rapid.SampledFrom([]string{"Kigali", "Rwanda > Kigali City", "", "Nowhere", "@input.text", "East", "I moved from East to Kigali last year"}).Draw(g.t, "stateval")
+			a["value"] = rapid.SampledFrom([]string{"Kigali", "Rwanda > Kigali City", "", "Nowhere", "@input.text", "East", "I moved from East to Kigali last year", "Rwanda > Kigali City > Gasabo", "Rwanda > Kigali City > Gasabo > Gisozi"}).Draw(g.t, "stateval")
 		case "district":
-			a["value"] = rapid.SampledFrom([]string{"Centre", "Gasabo", "", "Nowhere", "@input.text", "Rwamagana", "from Gasabo to Centre"}).Draw(g.t, "districtval")
+			a["value"] = rapid.SampledFrom([]string{"Centre", "Gasabo", "", "Nowhere", "@input.text", "Rwamagana", "from Gasabo to Centre", "Rwanda > Kigali City", "Rwanda > Kigali City > Gasabo", "Rwanda > Kigali City > Gasabo > Ndera"}).Draw(g.t, "districtval")
 		case "ward":
 			a["value"] = rapid.SampledFrom([]string{"Market", "Ndera", "Gisozi", "", "@input.text"}).Draw(g.t, "wardval")
 		default:
@@ -453,13 +485,15 @@ func (g *gen) action(flowType string, flowUUIDs []string, flowNames []string) M 
 		if a["text"] == "" {
 			a["text"] = "broadcast"
 		}
-		switch rapid.IntRange(0, 3).Draw(g.t, "bcto") {
+		switch rapid.IntRange(0, 4).Draw(g.t, "bcto") {
 		case 0:
 			a["groups"] = g.groupRefs(false)
 		case 1:
 			a["urns"] = []string{"tel:+250788555555"}
 		case 2:
 			a["contacts"] = []M{{"uuid": UUID("contact", 7), "name": "Other"}}
+		case 3:
+			g.mixedRecipients(a)
 		default:
 			a["contact_query"] = rapid.SampledFrom([]string{"name = @contact.name", "age > @fields.age", "name = @input.text AND language = \"eng\""}).Draw(g.t, "bcquery")
 		}
@@ -471,13 +505,15 @@ func (g *gen) action(flowType string, flowUUIDs []string, flowNames []string) M 
 			a["flow"] = M{"uuid": UUID("flow", 99), "name": "Deleted"}
 		}
 		a["exclusions"] = M{}
-		switch rapid.IntRange(0, 3).Draw(g.t, "ssto") {
+		switch rapid.IntRange(0, 4).Draw(g.t, "ssto") {
 		case 0:
 			a["groups"] = g.groupRefs(false)
 		case 1:
 			a["urns"] = []string{"tel:+250788555555"}
 		case 2:
 			a["create_contact"] = true
+		case 3:
+			g.mixedRecipients(a)
 		default:
 			a["contact_query"] = rapid.SampledFrom([]string{"name = @contact.name", "tel = @input.text"}).Draw(g.t, "ssquery")
 		}
@@ -656,6 +692,14 @@ func (g *gen) flow(idx int, uuids, names, types []string) {
 			var r M
 			r, exits = g.router(flowType, &info)
 			n["router"] = r
+			// webhook -> wait -> @webhook: the call whose saved result a reloaded session rebuilds @webhook from
+			if _, waits := r["wait"]; waits && g.o.WebhookRefs && len(g.o.WebhookCmds) > 0 && contains(ActionTypesFor(flowType), "call_webhook") && rapid.IntRange(0, 2).Draw(g.t, "webhookbeforewait") == 0 {
+				wh := M{"uuid": g.uuid("action"), "type": "call_webhook", "method": "GET", "result_name": g.resultName(),
+					"url": "http://mock/?cmd=" + rapid.SampledFrom(g.o.WebhookCmds).Draw(g.t, "cmdbeforewait")}
+				acts, _ := n["actions"].([]M)
+				n["actions"] = append(acts, wh)
+				info.ActionTypes = append(info.ActionTypes, "call_webhook")
+			}
 			for _, c := range r["categories"].([]M) {
 				localizable = append(localizable, M{"uuid": c["uuid"], "property": "name", "n": 1})
 			}
@@ -790,8 +834,18 @@ func Draw(t *rapid.T, o Opts) *World {
 			types[i] = rapid.SampledFrom([]string{"messaging", "voice", "messaging_offline"}).Draw(t, "childtype")
 		}
 	}
-	for i := range uuids {
+	nGood := len(uuids)
+	if o.BrokenFlow && rapid.Bool().Draw(t, "brokenflow") {
+		// a flow that is present in the assets but whose definition does not load (an exit leading to a node that does
+		// not exist): enter_flow actions of the other flows may target it, triggers never do
+		uuids, names, types = append(uuids, UUID("flow", 66)), append(names, "Broken Flow"), append(types, mainType)
+	}
+	for i := 0; i < nGood; i++ {
 		g.flow(i, uuids, names, types)
+	}
+	if len(uuids) > nGood {
+		g.flowDefs = append(g.flowDefs, M{"uuid": UUID("flow", 66), "name": "Broken Flow", "spec_version": "13.6.0", "language": "eng", "type": mainType, "revision": 1, "expire_after_minutes": 0,
+			"localization": M{}, "nodes": []M{{"uuid": UUID("node", 6601), "exits": []M{{"uuid": UUID("exit", 6601), "destination_uuid": UUID("node", 9998)}}}}})
 	}
 	assets := M{
 		"channels": channels, "classifiers": classifiers, "fields": FieldDefs, "flows": g.flowDefs, "globals": globals, "groups": g.groups,
